@@ -428,6 +428,10 @@ func (x *Exec) inline(fr *Frame, st *State, fn *ssa.Function, args []Value, env 
 			cf.reg[fv] = m.freshValue(fv.Type(), "fv."+fv.Name())
 		}
 	}
+	if specs := x.orphanLoops[fn]; len(specs) > 0 {
+		cf.spec = &FuncSpec{Loops: specs}
+		cf.bindLoopSpecs()
+	}
 	saveDefers := st.defers
 	st.defers = nil
 	x.runBody(cf, st)
